@@ -23,7 +23,7 @@ def typeset_in_order(order_names):
     types = [getattr(visions.types, n) for n in order_names]
     with warnings.catch_warnings():
         warnings.simplefilter("ignore")
-        ts = VisionsTypeset.__new__(VisionsTypeset)
+        ts = VisionsTypeset(set(types))          # the real constructor first: whatever else it initialises stays initialised
         ts._root_node = None
         ts.relation_graph, ts.base_graph = build_graph(types)
         ts.types = set(ts.relation_graph.nodes)
@@ -96,6 +96,13 @@ def replay(path):
     tmp = tempfile.mkdtemp(prefix="visions-verif-c19-", dir=C.SCRATCH)
     try:
         outs = []
+        if r.get("history"):
+            th, fresh = typeset_in_order(r["orders"][0]), typeset_in_order(r["orders"][0])
+            hist = [export(th, bo, tmp)[0] for bo in (True, False, True, False)]
+            b = export(fresh, False, tmp)[0]
+            if hist[1] != b or hist[3] != b or hist[0] != hist[2]:
+                print("replay: property fails: exports of one instance (base, full, base, full) differ from a fresh instance's")
+                return 1
         for order in r["orders"]:
             ts = typeset_in_order(order)
             b, raw = export(ts, r["base_only"], tmp)
@@ -151,6 +158,15 @@ def run(args):
                         msg = faithful(ts, base_only, b.decode())
                         if msg:
                             fail = {"what": msg, "typeset": S, "base_only": base_only, "orders": [order]}
+                    if k == 0 and not base_only and fail is None:
+                        # history on ONE instance: base, full, base, full - every export equals the export of a fresh instance
+                        th = typeset_in_order(order)
+                        hist = [export(th, bo, tmp)[0] for bo in (True, False, True, False)]
+                        nexp += 4
+                        if hist[1] != b or hist[3] != b or hist[0] != hist[2]:
+                            which = "full export after a base_only export" if hist[1] != b else ("second full export" if hist[3] != b else "second base_only export")
+                            fail = {"what": f"on one typeset instance the exports base_only=True, False, True, False were made in this order: the {which} differs from the export of a fresh instance",
+                                    "typeset": S, "base_only": False, "orders": [order], "history": "base,full,base,full"}
                     if raw is not None:
                         model_lines.append(" ".join(map(str, [3, 1 if base_only else 0] + [idx[x] for x in order])))
                         model_meta.append((S, base_only, order, raw))
